@@ -107,8 +107,14 @@ namespace sim
       return ep;
     }
 
-    template <typename Option> void set_option(Option const&) {}
-    template <typename Option> void set_option(Option const&, ASIO_ERROR_CODE& ec) { ec = ASIO_ERROR_CODE(); }
+    /// as a real socket: setting an option on a closed socket fails with bad_descriptor
+    template <typename Option> void set_option(Option const&)
+    {
+      if (!open)
+        throw ASIO::system_error(ASIO_ERROR_CODE(ASIO::error::bad_descriptor), "set_option");
+    }
+    template <typename Option> void set_option(Option const&, ASIO_ERROR_CODE& ec)
+    { ec = open ? ASIO_ERROR_CODE() : ASIO_ERROR_CODE(ASIO::error::bad_descriptor); }
     template <typename Option> void get_option(Option&) const {}
     template <typename Option> void get_option(Option&, ASIO_ERROR_CODE& ec) const { ec = ASIO_ERROR_CODE(); }
 
